@@ -30,6 +30,7 @@ class Rel:
     tags: tuple = ()
     cost: int = 0
     setop: tuple = ()                  # for UNION: (left Rel, right Rel)
+    child_cols: tuple = ()             # alias column list applied to FROM item 0: (SELECT ...) AS t(p, q) / WITH c(p, q) AS (...)
 
 
 def base(table):
@@ -63,6 +64,11 @@ def wrappers(r: Rel, others: list[Rel]):
                    (("p", U(c0) | frozenset({"y.c", "x.a"})), ("q", U(c1))), r.tags + ("in_union",), r.cost + 1))
     out.append(Rel("SELECT t.%s IN (SELECT c FROM y) AS p, (SELECT MIN(b) FROM y) + t.%s AS q FROM {f0}" % (c0, c1), (r,), (),
                    (("p", U(c0) | frozenset({"y.c"})), ("q", U(c1) | frozenset({"y.b"}))), r.tags + ("in_select",), r.cost + 1))
+    if len(names) == 2 and not isinstance(r.children[0] if r.children else "", str) or r.setop:
+        if len(names) == 2:
+            # the inner query's columns are renamed by an alias column list (whatever the shape of its body)
+            out.append(Rel("SELECT t.p AS p, t.q AS q FROM {f0}", (r,), (), (("p", U(c0)), ("q", U(c1))), r.tags + ("alias_cols",), r.cost + 1, (), ("p", "q")))
+            out.append(Rel("SELECT * FROM {f0}", (r,), (), (("p", U(c0)), ("q", U(c1))), r.tags + ("alias_cols_star",), r.cost + 1, (), ("p", "q")))
     out.append(Rel("SELECT t1.%s AS p, t2.%s AS q FROM {f0} JOIN {f1} ON t1.%s = t2.%s" % (c0, c1, c0, c0), (r, r), (),
                    (("p", U(c0)), ("q", U(c1))), r.tags + ("self_join",), r.cost + 1))
     for o in others:
@@ -95,7 +101,7 @@ def render_inline(r: Rel, renamed=False) -> str:
         if isinstance(c, str):
             items[f"f{i}"] = c
         else:
-            items[f"f{i}"] = f"({render_inline(c, renamed)}) AS {a}"
+            items[f"f{i}"] = f"({render_inline(c, renamed)}) AS {a}" + (f"({', '.join(r.child_cols)})" if r.child_cols and i == 0 else "")
     for i, s in enumerate(r.scalars):
         items[f"s{i}"] = scalar_sql(s)
     sql = r.template.format(**items)
@@ -122,11 +128,12 @@ def render_cte(r: Rel) -> str:
                 items[f"f{i}"] = c
             else:
                 inner = body(c)
-                existing = next((n for n, b in ctes if b == inner), None)
+                cols = f"({', '.join(rel.child_cols)})" if rel.child_cols and i == 0 else ""
+                existing = next((n for n, b in ctes if b == inner and n.endswith(cols) and ("(" in n) == bool(cols)), None)
                 if existing is None:
-                    existing = f"cte{len(ctes)}"
+                    existing = f"cte{len(ctes)}{cols}"
                     ctes.append((existing, inner))
-                items[f"f{i}"] = f"{existing} AS {a}"
+                items[f"f{i}"] = f"{existing.split('(')[0]} AS {a}"
         for i, s in enumerate(rel.scalars):
             items[f"s{i}"] = scalar_sql(s)
         return rel.template.format(**items)
@@ -152,7 +159,7 @@ def render_sources(r: Rel):
             # the same inner query gets ONE source name, so a source can be referenced through two aliases
             name = next((n for n, b in srcs.items() if b == body), None) or f"src{len(srcs)}"
             srcs[name] = body
-            items[f"f{i}"] = f"{name} AS {a}"
+            items[f"f{i}"] = f"{name} AS {a}" + (f"({', '.join(r.child_cols)})" if r.child_cols and i == 0 else "")
     for i, s in enumerate(r.scalars):
         items[f"s{i}"] = scalar_sql(s)
     if not srcs:
